@@ -1,7 +1,7 @@
 ---------------------------------- MODULE Base ----------------------------------
 (* Reference arithmetic on shapes and indices (Layer R).  Shapes, strides and   *)
 (* multi-indices are sequences of integers; flat offsets are 0-based.            *)
-EXTENDS Naturals, Integers, Sequences, FiniteSets
+EXTENDS Naturals, Integers, Sequences, FiniteSets, TLC
 
 RECURSIVE ProdFrom(_, _)
 ProdFrom(s, i) == IF i > Len(s) THEN 1 ELSE s[i] * ProdFrom(s, i + 1)
@@ -63,7 +63,10 @@ ShapesOf(dmin, dmax, E) == UNION {[1..d -> E] : d \in dmin..dmax}
 \* array values: ok flag, shape and the elements in C order
 Nothing == [ok |-> FALSE, shape |-> <<>>, elems |-> <<>>]
 Mk(shape, F(_)) == [ok |-> TRUE, shape |-> shape, elems |-> [k \in 1..Prod(shape) |-> F(Unravel(k - 1, shape))]]
-At(v, idx) == v.elems[Offset(idx, v.shape) + 1]
+\* reading an operand: the source multi-index must lie inside the operand's shape (C02: the footprint of every reference
+\* operator stays inside its operands; TLC evaluates this check wherever an operator reads an element)
+At(v, idx) == IF InBox(idx, v.shape) THEN v.elems[Offset(idx, v.shape) + 1]
+              ELSE Assert(FALSE, <<"source index outside the operand", idx, v.shape>>)
 \* operand j of a trace: element at flat position p is 1000*j + p + 1
 Leaf(shape, j) == [ok |-> TRUE, shape |-> shape, elems |-> [p \in 1..Prod(shape) |-> 1000 * j + p]]
 =================================================================================
